@@ -46,10 +46,12 @@ PLAN = {
         assumptions=["map model + conflict rule as stated in the property", "'_' in host labels not judged"],
         quick=[REPLAY,
                R("model", "^(TestModel|TestNote)$", checks=7000, steps=40, timeout=900),
-               R("fanout", "^TestFanOut$", checks=150, timeout=900)],
+               R("fanout", "^TestFanOut$", checks=150, timeout=900),
+               R("exhaustive-histories", "^TestExhaustiveHistories$", env={"C02_EXH_LEN": 3}, timeout=900)],
         thorough=[REPLAY,
                   R("model", "^(TestModel|TestNote)$", checks=15000, steps=100, shards=16, timeout=3000),
-                  R("fanout", "^TestFanOut$", checks=600, shards=8, timeout=3000)],
+                  R("fanout", "^TestFanOut$", checks=600, shards=8, timeout=3000),
+                  R("exhaustive-histories", "^TestExhaustiveHistories$", shards=16, env={"C02_EXH_LEN": 4, "C02_EXH_EXTRA": "/a/{p}/y,{h}.b/"}, timeout=3000)],
     ),
     "C03": dict(
         pkg="c03", level="exploration",
